@@ -65,11 +65,17 @@ Proof. intros W. pose proof (packet_len h af pay W) as L. destruct W as ((_ & _ 
     exact (slice_from_app [71; b1; ppid h mod 256; b3] pay). Qed.
 
 (* whole-packet carrier: the PAT object is the payload that was put into the packet *)
-Lemma packet_carrier h af s rest : wf_section s -> wf_packet h af (ser_payload s rest) ->
-  new_pat (ser_packet h af (ser_payload s rest)) = Ok (ser_payload s rest).
-Proof. intros Ws Wp. rewrite new_pat_packet by (apply packet_len; exact Wp).
-  rewrite packet_payload by exact Wp. cbn [bind]. apply new_pat_payload; [exact Ws|].
+Lemma packet_carrier h af k filler s rest : wf_section s -> len filler = k ->
+  wf_packet h af (ser_payload_pf k filler s rest) ->
+  new_pat (ser_packet h af (ser_payload_pf k filler s rest)) = Ok (ser_payload_pf k filler s rest).
+Proof. intros Ws Lf Wp. rewrite new_pat_packet by (apply packet_len; exact Wp).
+  rewrite packet_payload by exact Wp. cbn [bind]. apply new_pat_payload; [exact Ws|exact Lf|].
   pose proof (payload_len _ _ (packet_len _ _ _ Wp) (packet_payload _ _ _ Wp)). lia. Qed.
+(* a payload that fits into a packet has pointer_field < 183 *)
+Lemma packet_pointer_bound h af k filler s rest : wf_section s -> len filler = k ->
+  wf_packet h af (ser_payload_pf k filler s rest) -> k <= 171.
+Proof. intros Ws Lf Wp. pose proof (payload_len _ _ (packet_len _ _ _ Wp) (packet_payload _ _ _ Wp)) as L.
+  rewrite len_payload in L by assumption. lia. Qed.
 
 (* ---- ReadPAT ---- *)
 Definition other_pid (p : bytes) : Prop := exists x, PatPkt.pid p = Ok x /\ x <> 0.
@@ -92,10 +98,11 @@ Proof. intros Ho H1 H2. rewrite read_pat_skip by exact Ho. cbn [read_pat].
   apply N.eqb_neq in H1, H2. rewrite H1, H2. reflexivity. Qed.
 
 (* stream carrier: any prefix of other-PID packets, then the PAT packet, then anything *)
-Lemma stream_carrier others h af s rest more : Forall other_pid others ->
-  wf_section s -> wf_packet h af (ser_payload s rest) -> ppid h = 0 ->
-  read_pat (map RFull others ++ RFull (ser_packet h af (ser_payload s rest)) :: more) = Ok (ser_payload s rest).
-Proof. intros Ho Ws Wp H0. rewrite read_pat_first; [|exact Ho|rewrite packet_pid by exact Wp; f_equal; exact H0].
+Lemma stream_carrier others h af k filler s rest more : Forall other_pid others ->
+  wf_section s -> len filler = k -> wf_packet h af (ser_payload_pf k filler s rest) -> ppid h = 0 ->
+  read_pat (map RFull others ++ RFull (ser_packet h af (ser_payload_pf k filler s rest)) :: more)
+  = Ok (ser_payload_pf k filler s rest).
+Proof. intros Ho Ws Lf Wp H0. rewrite read_pat_first; [|exact Ho|rewrite packet_pid by exact Wp; f_equal; exact H0].
   rewrite <- new_pat_packet by (apply packet_len; exact Wp). apply packet_carrier; assumption. Qed.
 
 (* ---- IsPMT ---- *)
@@ -105,9 +112,9 @@ Proof. intros Hd. rewrite existsb_exists. split.
   - intros ([p v] & Hin & Hv). cbn [snd] in Hv. apply N.eqb_eq in Hv. subst v. exists p. apply in_lookup; assumption.
   - intros (p & Hl). exists (p, x). split; [apply lookup_in; exact Hl|apply N.eqb_refl]. Qed.
 
-Lemma is_pmt_iff pkt s rest x : wf_section s -> PatPkt.pid pkt = Ok x ->
-  exists b, is_pmt pkt (Some (ser_payload s rest)) = Ok b /\ (b = true <-> is_pmt_pid (entries s) x).
-Proof. intros W Hx. unfold is_pmt. rewrite program_map_ok by exact W. cbn [bind]. rewrite Hx. cbn [bind].
+Lemma is_pmt_iff pkt k filler s rest x : wf_section s -> k < 256 -> len filler = k -> PatPkt.pid pkt = Ok x ->
+  exists b, is_pmt pkt (Some (ser_payload_pf k filler s rest)) = Ok b /\ (b = true <-> is_pmt_pid (entries s) x).
+Proof. intros W Hk Lf Hx. unfold is_pmt. rewrite program_map_ok by assumption. cbn [bind]. rewrite Hx. cbn [bind].
   eexists. split; [reflexivity|]. rewrite existsb_values by apply model_map_nodup. unfold is_pmt_pid.
   split; intros (p & Hp); exists p; [rewrite <- model_map_lookup|rewrite model_map_lookup]; exact Hp. Qed.
 Lemma is_pmt_nil pkt : is_pmt pkt None = Err E.NilPAT.
